@@ -144,6 +144,9 @@ func (e *Engine) binopTerms(op token.Token, l, r Val, operandType types.Type, di
 				return app(SInt, "*", lt, intLit(int64(1)<<k)), true
 			}
 		}
+		if t, ok := bitOpConst(op, lt, rt); ok {
+			return t, true
+		}
 		e.cur.log.declFun(name, []Sort{SInt, SInt}, SInt)
 		return app(SInt, name, lt, rt), true
 	}
@@ -526,6 +529,12 @@ func (a *act) next(x *ssa.Next, st *State, reach Term) Val {
 			app(SBool, "<=", app(SInt, "+", pos, w), app(SInt, "str.len", s)),
 			app(SBool, "<=", intLit(0), r), app(SBool, "<=", r, intLit(0x10FFFF)),
 			not(and(app(SBool, "<=", intLit(0xD800), r), app(SBool, "<=", r, intLit(0xDFFF)))))))
+		// UTF-8: a byte below 0x80 is a one-byte sequence for the rune of the same value; any other start byte gives a
+		// rune of at least 0x80 (or U+FFFD for an invalid sequence)
+		b := app(SInt, "str.at", s, pos)
+		log.assert(implies(ok, and(
+			implies(app(SBool, "<", b, intLit(0x80)), and(eq(r, b), eq(w, intLit(1)))),
+			implies(app(SBool, ">=", b, intLit(0x80)), app(SBool, ">=", r, intLit(0x80))))))
 		st.locals[iter.Key] = Val{Typ: types.Typ[types.Int], T: []Term{log.define("pos", ite(ok, app(SInt, "+", pos, w), pos))}}
 		return Val{Typ: tup, T: []Term{ok, pos, r}}
 	case *MapIter:
@@ -807,4 +816,66 @@ func (a *act) topFn() *ssa.Function {
 		p = p.caller
 	}
 	return p.fn
+}
+
+// bitOpConst: bitwise operation with a small non-negative constant operand, as integer arithmetic. Bit k of an
+// integer x (two's complement, any sign) is (x div 2^k) mod 2 with SMT-LIB's floor division, so
+//   x & c  = sum over the set bits k of c of 2^k * bit_k(x)          x &^ c = x - (x & c)
+//   x | c  = x + c - (x & c)                                        x ^ c  = x + c - 2*(x & c)
+//   x >> k = x div 2^k
+// Exact for mathematical integers, hence for every Go integer type whose result fits (masks and shifts right never
+// leave the operand's range). Constants with more than 8 set bits stay uninterpreted.
+func bitOpConst(op token.Token, lt, rt Term) (Term, bool) {
+	lit := func(t Term) (int64, bool) {
+		if !isIntLit(t.S) || len(t.S) > 15 {
+			return 0, false
+		}
+		var v int64
+		fmt.Sscanf(t.S, "%d", &v)
+		return v, true
+	}
+	if op == token.SHR {
+		if k, ok := lit(rt); ok && k < 62 {
+			return app(SInt, "div", lt, intLit(int64(1)<<uint(k))), true
+		}
+		return Term{}, false
+	}
+	x, c, ok := lt, int64(0), false
+	if v, isl := lit(rt); isl {
+		c, ok = v, true
+	} else if v, isl := lit(lt); isl && op != token.AND_NOT {
+		x, c, ok = rt, v, true // commutative operations
+	}
+	if !ok || op == token.SHL {
+		return Term{}, false
+	}
+	var parts []Term
+	n := 0
+	for k := uint(0); k < 62; k++ {
+		if c&(int64(1)<<k) != 0 {
+			n++
+			bit := app(SInt, "mod", app(SInt, "div", x, intLit(int64(1)<<k)), intLit(2))
+			parts = append(parts, app(SInt, "*", intLit(int64(1)<<k), bit))
+		}
+	}
+	if n > 8 {
+		return Term{}, false
+	}
+	masked := intLit(0)
+	if len(parts) == 1 {
+		masked = parts[0]
+	} else if len(parts) > 1 {
+		masked = app(SInt, "+", parts...)
+	}
+	switch op {
+	case token.AND:
+		return masked, true
+	case token.AND_NOT:
+		return app(SInt, "-", x, masked), true
+	case token.OR:
+		return app(SInt, "-", app(SInt, "+", x, intLit(c)), masked), true
+	case token.XOR:
+		return app(SInt, "-", app(SInt, "+", x, intLit(c)), app(SInt, "*", intLit(2), masked)), true
+	}
+	return Term{}, false
 }
